@@ -130,6 +130,7 @@ PROPS["C07"] = {
     "legs": [plain("known", "c07", "TestKnownF7"),
              rapid("life", "c07", "TestStopPoison", 3000, 50000, shards=(2, 12)),
              rapid("conc", "c07", "TestConcurrentStops", 1500, 20000, shards=(2, 8)),
+             rapid("reuse", "c07", "TestStopReuse", 600, 6000, shards=(1, 4)),
              rapid("unknown", "c07", "TestStopUnknown", 300, 3000, shards=(1, 2)),
              rapid("sched", "sched", "TestStopSchedules", 3000, 60000, shards=(2, 12), flavour="sched"),
              plain("sdfs", "sched", "TestStopDFS", flavour="sched", shards={"quick": 1, "thorough": 6}, timeout={"quick": 600, "thorough": 3000})],
